@@ -380,7 +380,9 @@ EForm(e) ==
             IN EFSteps(e.steps, EFPreds(inner, e.preds))
       [] e.t = "union"  -> "(" \o EForm(e.l) \o " | " \o EForm(e.r) \o ")"
       [] e.t = "bin"    -> "(" \o EForm(e.l) \o " " \o e.op \o " " \o EForm(e.r) \o ")"
-      [] e.t = "neg"    -> IF NegParity(e) = 1 THEN "(" \o EForm(NegBase(e)) \o " * num(-1))" ELSE EForm(NegBase(e))
+      [] e.t = "neg"    -> \* the engine folds a run of minus signs into one multiplication: by -1 for an odd run, by 1 for
+                           \* an even one (since F-C08-6: the operand is converted to a number either way)
+                           IF NegParity(e) = 1 THEN "(" \o EForm(NegBase(e)) \o " * num(-1))" ELSE "(" \o EForm(NegBase(e)) \o " * num(1))"
       [] e.t = "lit"    -> "str(" \o e.s \o ")"
       [] e.t = "num"    -> "num(" \o (IF "lex" \in DOMAIN e THEN NormDec(e.lex) ELSE NumToStr(e.v)) \o ")"
       [] e.t = "var"    -> "var(" \o e.n \o ")"
